@@ -472,10 +472,11 @@ def load_findings():
 
 
 def write_evidence(prop, tier, seed, cov, wall, violations, assumptions):
-    os.makedirs(os.path.join(ROOT, 'evidence'), exist_ok=True)
+    evdir = os.environ.get('VERIF_EVIDENCE_DIR') or os.path.join(ROOT, 'evidence')   # tools/mutant*.sh redirect it
+    os.makedirs(evdir, exist_ok=True)
     ev = {'property_id': prop, 'tier': tier, 'seed': seed, 'level': PROPS[prop]['level'], 'coverage': cov,
           'assumptions': assumptions, 'wall_s': round(wall, 2), 'violations': violations}
-    with open(os.path.join(ROOT, 'evidence', prop + '.json'), 'w') as f:
+    with open(os.path.join(evdir, prop + '.json'), 'w') as f:
         json.dump(ev, f, indent=1)
 
 
